@@ -19,6 +19,8 @@ ASSUMPTIONS = ["Python aliasing is represented only as the explicit caller-confi
                "results; that copy.copy is shallow and nothing else aliases the caller's objects is exercised by the "
                "adapters (caller's objects compared field by field before/after), not proved"]
 TRUSTED = []
+# explorations outside the model that belong to streams collected here (their modules describe them)
+EXPLORED_ONLY = [a for m in MODS for a in getattr(m, "EXPLORED_ONLY", []) if any(PAT.search(w) for w in re.findall(r"stream (\w+)", a))]
 ORACLE_LIMIT = {"quick": 100000, "thorough": 1000000}
 
 
